@@ -179,6 +179,12 @@ func (win Window) Print(segs ...Segment) (col int, row int) {
 				// characterWidth will cache the result
 				char.Width = win.Vx.characterWidth(char.Grapheme)
 			}
+			if col > 0 && col+char.Width > cols {
+				// The cluster doesn't fit in what is left of this
+				// row, it goes on the next one
+				row += 1
+				col = 0
+			}
 			cell := Cell{
 				Character: char,
 				Style:     seg.Style,
@@ -305,6 +311,12 @@ func (win Window) Wrap(segs ...Segment) (col int, row int) {
 					row += 1
 					col = 0
 					continue
+				}
+				if col > 0 && col+char.Width > cols {
+					// The cluster doesn't fit in what is left of
+					// this row, it goes on the next one
+					row += 1
+					col = 0
 				}
 				cell := Cell{
 					Character: char,
